@@ -56,4 +56,10 @@ def oracleB (o : NpOracle) (a : NArr) : Bool :=
 def goodB (o : NpOracle) (a : NArr) : Bool :=
   a.elems.all (fun x => elemWFB a.kind x && payWFB a.kind x) && noRaiseB o a && oracleB o a
 
+/-- no relation test whose source type contains the array raises on it (second executable hypothesis of the end-to-end
+theorem `infer_numpy_complete`) -/
+def guardsOkNB (o : NpOracle) (a : NArr) : Bool :=
+  numpyRelationsRegistered.all (fun (s, d) =>
+    !containsB s a || (match guard o s d with | some g => (match g a with | .ok _ => true | .error _ => false) | none => true))
+
 end V.Np
